@@ -11,14 +11,14 @@ from . import simcommon as SC
 from .c05 import shapes
 from .c08 import compare_obs
 
-MODULES = ['TickitModel.Props.C05', 'TickitModel.Props.C06']
-THEOREMS = ['tickLevel_once', 'initial_tick_complete', 'system_callback_is_min', 'nestedDue_exact', 'nestedDue_spec']
+MODULES = ['TickitModel.Props.C09', 'TickitModel.Props.C05', 'TickitModel.Props.C06']
+THEOREMS = ['nesting_transparent_initial', 'nesting_transparent_initial_fuel', 'nesting_transparent_run', 'nesting_transparent_run_fuel', 'resolveFuel_sufficient', 'flatten_devices', 'external_passes_inputs', 'expose_collects_outputs', 'tickLevel_once', 'initial_tick_complete', 'system_callback_is_min', 'nestedDue_exact']
 ANCHORS = ["src/tickit/core/management/schedulers/nested.py", "src/tickit/core/components/system_component.py",
            "src/tickit/core/management/schedulers/base.py", "src/tickit/core/management/ticker.py"]
-TECHNIQUE = 'Lean 4 whole-simulation model with nested schedulers + Lean flattening function; theorems on the nested tick (inner tick inside the outer one at the same time, each device once; system callback = inner minimum; due-selection exact) + nested configuration vs mechanical flattening, both run on the real code and in the model'
-LEVEL_TEXT = "PARTIAL. Proved over the nested whole-simulation model: a tick of any level updates each device below it at most once, all at the outer tick's time; in the initial tick every device at every depth exactly once; what a system reports upward is the minimum inner wakeup and the inner due-set at that time is exactly the entries equal to it (callbacks inside systems are served at exactly the requested time). The transparency theorem itself (per-device observations of S equal those of flatten S, stated in Props/C09.lean over the same executable model) is registered as an obligation only once its proof is complete (see DESIGN.md for its status); until then transparency rests on validation: every generated nesting (depth <= 3, siblings, system-in-system, pass-through expose, no inputs / no expose) and its mechanical flattening are BOTH run on the real code under two buses, must give identical per-device observation sequences, and both must agree with the Lean model; the Lean and Python flattenings are compared; the model itself is run nested and flattened."
-LEVEL_NOTE = 'Trusts: Lean kernel; hand-written nested model and flattening; transparency beyond the proved lemmas is validated by sampling, not proved.'
-ASSUMPTIONS = ['valid configurations', 'interrupt histories as restricted by the property']
+TECHNIQUE = 'Lean 4 theorem: for every valid configuration tree (any depth) the whole-simulation model run on the nested configuration and on its mechanical flattening have the same tick times and the same per-device (time, inputs) observations, initial tick and any number of callback ticks (device-level tick equations for nested ticks + uniqueness by rank induction) + nested vs flattened runs of the real code validated against the model'
+LEVEL_TEXT = "Proved over the executable whole-simulation model (nested schedulers at unbounded depth, devices as oracles), for every structurally valid configuration: if the nested run completes, so does the run of the mechanically flattened configuration (external / exposed ports replaced by direct wires; the resolution fuel bound is proved sufficient, after a counterexample to a smaller bound), with the same tick times and real start times and, for every device, the same sequence of (time, inputs) observations - for the initial tick and for any number of callback ticks: values cross system boundaries in both directions and through pass-through ports within the same tick, and callbacks requested inside a system are served at exactly the requested time (system entry = minimum inner wakeup). The proof goes through device-level tick equations for arbitrary nested ticks and their uniqueness on the acyclic resolved wiring. PARTIAL: histories with interrupts are not covered by the theorem (validated: interrupts between ticks give identical observations nested vs flat on the real code; interrupts arriving mid-tick are checked for being served). The model answers dispatches first-in first-out; other orders are C08's subject. Tie to the code: every generated nesting (depth <= 3, siblings, system-in-system, pass-through expose, no inputs / no expose) and its flattening are BOTH run on the real code under two buses, must give identical per-device observations, and both must agree with the Lean model; the Lean and Python flattenings are compared; the model itself is run nested and flattened."
+LEVEL_NOTE = 'Trusts: Lean kernel; hand-written nested model and flattening (tied by trace validation and by comparing the two flattenings); interrupts beyond the theorem are validated by sampling.'
+ASSUMPTIONS = ["valid configurations (Static.Valid): unique names, every level's wiring well-formed, one source per input, acyclic; nothing wired into `external` or out of `expose`; no component named ''", 'theorem: callbacks only; interrupts are validated']
 
 
 def run(tier, seed, drv):
@@ -63,6 +63,19 @@ def run(tier, seed, drv):
                     ok = False
             if not ok:
                 continue
+            if b == "sync" and not has_cost and not scn.get("stims"):
+                # the model run on the nested configuration and on ITS OWN flattening (the objects of the
+                # transparency theorem), and the Lean flattening against the harness's
+                tid_ = monitors.master_tid(rn)
+                nt = max(0, len([e for e in rn["trace"].of("t-done") if e["tid"] == tid_]) - 1)
+                req = model.sim_request(scn, rn["trace"], n_ticks=nt)
+                rep_n, rep_f = drv.eval([req, dict(req, flatten=True)])
+                pyconns = sorted(f"{s_[0]}:{s_[1]}>{d['name']}:{q}" for d in flat["components"] for q, s_ in d["inputs"].items())
+                if rep_f.get("flat_conns") != pyconns:
+                    res.diverge(f"flattening: Lean {rep_f.get('flat_conns')} harness {pyconns}", case)
+                if model.model_observations(rep_n) != model.model_observations(rep_f) or rep_n.get("err") or rep_f.get("err"):
+                    res.diverge(f"model: nested and flattened runs differ ({rep_n.get('err')}, {rep_f.get('err')})", case)
+                res.count("model-nested-vs-flat")
             SC.check_run(scn, rn, drv, res, monitors_on=("inputs_latest", "callbacks", "tick_times") + (("interrupts",) if scn.get("stims") else ()),
                          corr=("ticker",) if has_cost else ("sim", "ticker"), case_extra=case)
             SC.check_run(flat, rf, drv, res, monitors_on=(), corr=() if has_cost else ("sim",), case_extra={"scenario": flat, "bus": b})
